@@ -4,6 +4,7 @@ package main
 
 import (
 	"fmt"
+	"time"
 
 	"github.com/6tail/lunar-go/calendar"
 	"lunarmon/ref"
@@ -50,6 +51,9 @@ func c07Run(w *W, c Case) {
 	case "prog":
 		for i := 0; i < c.A[1]; i++ {
 			c07Program(w, c.A[0]*100000+i)
+		}
+		for i := 0; i < 40; i++ {
+			c07FromDate(w)
 		}
 	}
 }
@@ -153,6 +157,51 @@ func c07Lunar(w *W, y int) {
 			w.Distinct(1)
 		}
 	}
+}
+
+// c07FromDate: the time.Time based constructors copy the civil fields of the time value.
+func c07FromDate(w *W) {
+	rng := w.Rng
+	y := 1583 + rng.Intn(8400) // Go's time is proleptic Gregorian: stay where both calendars agree
+	if rng.Intn(4) == 0 {
+		y = []int{1583, 1600, 1900, 2000, 2024, 2100, 9998}[rng.Intn(7)]
+	}
+	m := 1 + rng.Intn(12)
+	if rng.Intn(3) == 0 {
+		m = []int{1, 2, 12}[rng.Intn(3)]
+	}
+	d := 1 + rng.Intn(ref.LastDayOfMonth(y, m))
+	if rng.Intn(3) == 0 {
+		d = ref.LastDayOfMonth(y, m)
+	}
+	st := ref.Stamp{Y: y, M: m, D: d, H: rng.Intn(24), Mi: rng.Intn(60), S: rng.Intn(60)}
+	if rng.Intn(5) == 0 {
+		st.H, st.Mi, st.S = 23, 59, 59
+	}
+	tm := time.Date(st.Y, time.Month(st.M), st.D, st.H, st.Mi, st.S, 999, time.Local)
+	key := fmtStamp(st)
+	w.Cur("C07 from time.Time " + key)
+	s := calendar.NewSolarFromDate(tm)
+	l := calendar.NewLunarFromDate(tm)
+	if stampOf(s) != st || stampOf(l.GetSolar()) != st {
+		w.Violatef("from-date", key, "NewSolarFromDate(%s) = %s, NewLunarFromDate(...).GetSolar() = %s", key, s.ToYmdHms(), l.GetSolar().ToYmdHms())
+	}
+	want := solarOf(st).GetLunar()
+	if l.GetYear() != want.GetYear() || l.GetMonth() != want.GetMonth() || l.GetDay() != want.GetDay() || l.GetTimeInGanZhi() != want.GetTimeInGanZhi() {
+		w.Violatef("from-date", key+"/lunar", "NewLunarFromDate(%s) = %d-%d-%d, the conversion of the same civil fields is %d-%d-%d", key, l.GetYear(), l.GetMonth(), l.GetDay(), want.GetYear(), want.GetMonth(), want.GetDay())
+	}
+	start := rng.Intn(7)
+	wk := calendar.NewSolarWeekFromDate(tm, start)
+	mo := calendar.NewSolarMonthFromDate(tm)
+	se := calendar.NewSolarSeasonFromDate(tm)
+	hy := calendar.NewSolarHalfYearFromDate(tm)
+	yr := calendar.NewSolarYearFromDate(tm)
+	if wk.GetYear() != st.Y || wk.GetMonth() != st.M || wk.GetDay() != st.D || wk.GetIndex() != weekIndexInMonth(st.Y, st.M, st.D, start) || mo.GetYear() != st.Y || mo.GetMonth() != st.M || se.GetYear() != st.Y || se.GetMonth() != st.M || se.GetIndex() != (st.M-1)/3+1 || hy.GetYear() != st.Y || hy.GetMonth() != st.M || hy.GetIndex() != (st.M-1)/6+1 || yr.GetYear() != st.Y {
+		w.Violatef("from-date", key+"/units", "unit constructors from time %s: week %d-%d-%d idx %d, month %d-%d, season %d-%d, half-year %d-%d, year %d", key, wk.GetYear(), wk.GetMonth(), wk.GetDay(), wk.GetIndex(), mo.GetYear(), mo.GetMonth(), se.GetYear(), se.GetMonth(), hy.GetYear(), hy.GetMonth(), yr.GetYear())
+	}
+	w.Eval(4)
+	w.Distinct(1)
+	w.Count("from-time-constructors", 1)
 }
 
 // ---- program fuzzer
